@@ -120,6 +120,8 @@ class Coq:
         p = subprocess.run(["timeout", str(timeout)] + cmd, cwd=COQ, capture_output=True, text=True)
         out = p.stdout + p.stderr
         self.log(f"[coq] {' '.join(cmd)} -> {p.returncode} in {time.time() - t0:.1f}s")
+        if not getattr(self, "hold", False):
+            pass
         if p.returncode != 0:
             raise CoqError(" ".join(targets), out[-4000:])
         return " ".join(cmd)
@@ -342,6 +344,7 @@ class Ctx:
             self.discharged += n
             if self.thorough:
                 self.coqchk(prop_v)
+        self.coq.unlock()   # correspondence runs only read compiled files; do not serialise whole checks
         return ok
 
     def coqchk(self, prop_v: str):
